@@ -1,6 +1,7 @@
 import AsynqModel.Sexp
 import AsynqModel.Drv.Futures
 import AsynqModel.Drv.Core
+import AsynqModel.Drv.BatchServices
 import AsynqModel.Drv.Contexts
 import AsynqModel.Drv.Threads
 import AsynqModel.Drv.Asyncio
@@ -90,6 +91,7 @@ def handleCase (mode : String) (id : Nat) (hdr body : List Sexp) : String :=
     | _, _ => s!"R {id} CORR=diff SPEC=ok SPECM=ok | unparsable ctxraise case"
   | "futures" => Drv.Futures.handle id hdr body
   | "futsubs" => Drv.Futures.handleSubs id hdr body
+  | "futcopy" => Drv.Futures.handleCopy id hdr body
   | "core" => Drv.Core.handle id hdr body
   | "ctxhist" => Drv.Contexts.handle id hdr body
   | "threads" => Drv.Threads.handle id hdr body
@@ -102,6 +104,7 @@ def handleCase (mode : String) (id : Nat) (hdr body : List Sexp) : String :=
   | "dedup" => Drv.Dedup.handle id hdr body
   | "batching" => Drv.Batching.handle id hdr body
   | "batchingx" => Drv.Batching.handleX id hdr body
+  | "batchingm" => Drv.BatchServices.handle id hdr body
   | "generator" => Drv.Generator.handle id hdr body
   | "tools" => Drv.Tools.handle id hdr body
   | "core20" => Drv.Core.handle20 id hdr body
